@@ -149,7 +149,8 @@ func (t *tr) coqType(ty *typ) string {
 		return "Z"
 	case "exitError": // a *exec.ExitError: (Exited(), Sys())
 		return "(bool * option Z)%type"
-	case "ast.FuncType", "ast.FieldList", "ast.Field", "ast.Expr", "ast.SelectorExpr", "ast.Ident":
+	case "ast.FuncType", "ast.FieldList", "ast.Field", "ast.Expr", "ast.SelectorExpr", "ast.Ident",
+		"ast.CommentGroup", "ast.Comment", "ast.BasicLit", "ast.ImportSpec":
 		return astCoq[ty.kind]
 	case "sysval": // what (*exec.ExitError).Sys() returns: Some c when it has ExitStatus() int = c
 		return "(option Z)"
@@ -170,7 +171,8 @@ func (t *tr) coqType(ty *typ) string {
 
 // go/ast types -> Base/GoLib.v (pointers to them are read like the values; a *ast.FieldList may be nil)
 var astCoq = map[string]string{"ast.FuncType": "ast_functype", "ast.FieldList": "ast_fieldlist", "ast.Field": "ast_field",
-	"ast.Expr": "ast_expr", "ast.SelectorExpr": "(ast_expr * string)%type", "ast.Ident": "string"}
+	"ast.Expr": "ast_expr", "ast.SelectorExpr": "(ast_expr * string)%type", "ast.Ident": "string",
+	"ast.CommentGroup": "ast_commentgroup", "ast.Comment": "string", "ast.BasicLit": "string", "ast.ImportSpec": "ast_importspec"}
 
 // field of a go/ast value -> (Coq projection, type of the field)
 var astFields = map[string]struct {
@@ -186,6 +188,12 @@ var astFields = map[string]struct {
 	"ast.SelectorExpr.X":      {"fst", &typ{kind: "ast.Expr"}},
 	"ast.SelectorExpr.Sel":    {"snd", &typ{kind: "ast.Ident"}},
 	"ast.Ident.Name":          {"", tString},
+	"ast.CommentGroup.List":   {"commentgroup_List", tList(&typ{kind: "ast.Comment"})},
+	"ast.Comment.Text":        {"", tString},
+	"ast.BasicLit.Value":      {"", tString},
+	"ast.ImportSpec.Doc":      {"imp_doc", &typ{kind: "ast.CommentGroup"}},
+	"ast.ImportSpec.Comment":  {"imp_comment", &typ{kind: "ast.CommentGroup"}},
+	"ast.ImportSpec.Path":     {"imp_path", &typ{kind: "ast.BasicLit"}},
 }
 
 func (t *tr) mention(s string) {
@@ -285,8 +293,10 @@ func (t *tr) zero(ty *typ) string {
 		return "ast_field_zero"
 	case "ast.Expr":
 		return `(AOther "")`
-	case "ast.Ident":
+	case "ast.Ident", "ast.Comment", "ast.BasicLit":
 		return `""`
+	case "ast.CommentGroup":
+		return "(@None (list string))"
 	case "ast.SelectorExpr":
 		return `(AOther "", "")`
 	case "ast.FieldList":
@@ -512,6 +522,13 @@ func (t *tr) expr(e ast.Expr) (string, *typ) {
 		return "(index_ " + t.zero(ty.elem) + " " + c + " " + i + ")", ty.elem
 	case *ast.SliceExpr:
 		c, ty := t.expr(x.X)
+		if ty.kind == "string" && x.Low != nil && x.High == nil && !x.Slice3 { // s[lo:] on bytes (Go panics beyond len(s))
+			lo, lty := t.expr(x.Low)
+			if lty.kind != "int" {
+				die("unsupported slice bound %s", t.text(x.Low))
+			}
+			return "(sdrop (Z.to_nat " + lo + ") " + c + ")", tString
+		}
 		if ty.kind != "list" || x.Slice3 || (x.Low != nil && x.High != nil) || (x.Low == nil && x.High == nil) {
 			die("unsupported slice expression %s (only xs[lo:] and xs[:hi] of a slice)", t.text(e))
 		}
@@ -594,6 +611,12 @@ func (t *tr) binary(x *ast.BinaryExpr) (string, *typ) {
 				other = x.Y
 			}
 			c, ty := t.expr(other)
+			if ty.kind == "ast.CommentGroup" {
+				if x.Op == token.EQL {
+					return "(commentgroup_is_nil " + c + ")", tBool
+				}
+				return "(negb (commentgroup_is_nil " + c + "))", tBool
+			}
 			if ty.kind == "ast.FieldList" {
 				if x.Op == token.EQL {
 					return "(fieldlist_is_nil " + c + ")", tBool
@@ -830,6 +853,9 @@ func (t *tr) libcall(path, name string, x *ast.CallExpr) (string, *typ) {
 	case "strconv.ParseBool":
 		a := t.args(x, tString)
 		return "(strconv_ParseBool " + a[0] + ")", &typ{kind: "tuple", elems: []*typ{tBool, tError}}
+	case "strings.Fields":
+		a := t.args(x, tString)
+		return "(strings_Fields " + a[0] + ")", tList(tString) // ASCII reading (Base/GoLib.v)
 	case "strings.EqualFold":
 		a := t.args(x, tString, tString)
 		return "(strings_EqualFold " + a[0] + " " + a[1] + ")", tBool // ASCII reading (Base/GoLib.v)
@@ -1044,8 +1070,17 @@ func (t *tr) callOpaque(name string, o *opaqueFn, x *ast.CallExpr) (string, *typ
 	for _, p := range o.params {
 		ptys = append(ptys, t.coqType(p))
 	}
-	fn := t.addImplicit("fn_"+strings.Replace(name, ".", "_", -1), "("+strings.Join(append(ptys, t.coqType(o.result)), " -> ")+")")
-	return "(" + fn + " " + strings.Join(a, " ") + ")", o.result
+	_ = ptys
+	return "(" + t.opaqueParam(name, o) + " " + strings.Join(a, " ") + ")", o.result
+}
+
+// the parameter that stands for an opaque function
+func (t *tr) opaqueParam(name string, o *opaqueFn) string {
+	var ptys []string
+	for _, p := range o.params {
+		ptys = append(ptys, t.coqType(p))
+	}
+	return t.addImplicit("fn_"+strings.Replace(name, ".", "_", -1), "("+strings.Join(append(ptys, t.coqType(o.result)), " -> ")+")")
 }
 
 func (t *tr) defName(key string) string {
@@ -1185,6 +1220,10 @@ func (t *tr) function(key string) {
 		return ""
 	})
 	for _, n := range t.forced[key] {
+		if strings.HasPrefix(n, "?") { // a function named with this function on the command line: a parameter even if not called
+			t.opaqueParam(n[1:], t.opaque[n[1:]])
+			continue
+		}
 		t.addImplicit(n, forcedTypes[n])
 	}
 	var imp []string
@@ -1494,6 +1533,18 @@ func (t *tr) block(l []ast.Stmt, k func() string) string {
 				die("sort.Strings is supported only on a local []string variable (a parameter's caller would see the sorting): %s", t.text(s))
 			}
 			return "let " + t.v(id) + " := (sort_Strings " + t.v(id) + ") in\n  " + rest()
+		}
+		if call, ok := s.X.(*ast.CallExpr); ok {
+			if sel, ok := call.Fun.(*ast.SelectorExpr); ok {
+				if pk, ok := sel.X.(*ast.Ident); ok && t.imports[pk.Name] == "log" {
+					if _, shadow := t.env[pk.Name]; !shadow {
+						switch sel.Sel.Name {
+						case "Println", "Printf", "Print":
+							return rest() // what is written to the log is not part of the function's value
+						}
+					}
+				}
+			}
 		}
 		die("unsupported statement %s", t.text(s))
 	case *ast.IncDecStmt:
@@ -2045,7 +2096,7 @@ func (t *tr) load(path string) {
 
 // a method of a named slice type (Functions.Less) is looked up under the slice type's name; its receiver
 // is then simply a list
-func (t *tr) declareOpaque(spec string) {
+func (t *tr) declareOpaque(spec string) string {
 	name := spec
 	sig := ""
 	if i := strings.Index(spec, "="); i >= 0 {
@@ -2102,6 +2153,7 @@ func (t *tr) declareOpaque(spec string) {
 		}
 	}
 	t.opaque[name] = o
+	return name
 }
 
 func fnMode() {
@@ -2143,7 +2195,7 @@ func fnMode() {
 				case strings.HasPrefix(n, "$"): // a package-level string variable (of this or another file): a parameter
 					t.globals[n[1:]] = true
 				case strings.HasPrefix(n, "?"): // a function taken as a parameter: ?local or ?pkg.Func=T1:T2>R1:R2
-					t.declareOpaque(n[1:])
+					t.forced[key] = append(t.forced[key], "?"+t.declareOpaque(n[1:]))
 				default:
 					if _, ok := forcedTypes[n]; !ok {
 						die("unknown ambient value %s", n)
